@@ -13,7 +13,7 @@ use std::sync::atomic::{AtomicBool, AtomicUsize, Ordering};
 use std::sync::Arc;
 use std::time::Duration;
 
-pub const ENTRY: [&str; 16] = [
+pub const ENTRY: [&str; 19] = [
     "registry::register",
     "registry::register_sigaction",
     "registry::register_signal_unchecked",
@@ -30,7 +30,17 @@ pub const ENTRY: [&str; 16] = [
     "Handle::add_signal(SignalOnly)",
     "Handle::add_signal(WithRawSiginfo)",
     "Handle::add_signal(WithOrigin)",
+    "Signals::new([SIGURG, x])",
+    "SignalsInfo<WithRawSiginfo>::new([SIGURG, x])",
+    "SignalsInfo<WithOrigin>::new([SIGURG, x])",
 ];
+
+/// a signal that is valid, not used by anything else here and ignored by default
+const FIRST_IN_LIST: i32 = libc::SIGURG;
+
+fn open_fds() -> usize {
+    std::fs::read_dir("/proc/self/fd").map(|d| d.count()).unwrap_or(0)
+}
 
 static HITS: [AtomicUsize; 4] = [AtomicUsize::new(0), AtomicUsize::new(0), AtomicUsize::new(0), AtomicUsize::new(0)];
 
@@ -126,6 +136,18 @@ fn call(entry: usize, sig: i32, instances: &mut Instances) -> CallOut {
             let (o, k) = res(catch_unwind(A(|| SignalsInfo::<WithOrigin>::new(&[sig]))));
             CallOut { outcome: o, strong: 0, fd: -1, keep: k.map(|x| Box::new(x) as Box<dyn std::any::Any>) }
         }
+        16 => {
+            let (o, k) = res(catch_unwind(A(|| SignalsInfo::<SignalOnly>::new(&[FIRST_IN_LIST, sig]))));
+            CallOut { outcome: o, strong: 0, fd: -1, keep: k.map(|x| Box::new(x) as Box<dyn std::any::Any>) }
+        }
+        17 => {
+            let (o, k) = res(catch_unwind(A(|| SignalsInfo::<WithRawSiginfo>::new(&[FIRST_IN_LIST, sig]))));
+            CallOut { outcome: o, strong: 0, fd: -1, keep: k.map(|x| Box::new(x) as Box<dyn std::any::Any>) }
+        }
+        18 => {
+            let (o, k) = res(catch_unwind(A(|| SignalsInfo::<WithOrigin>::new(&[FIRST_IN_LIST, sig]))));
+            CallOut { outcome: o, strong: 0, fd: -1, keep: k.map(|x| Box::new(x) as Box<dyn std::any::Any>) }
+        }
         13 => {
             let (o, _) = res(catch_unwind(A(|| instances.a.handle().add_signal(sig))));
             CallOut { outcome: o, strong: 0, fd: -1, keep: None }
@@ -166,10 +188,26 @@ fn cell(entry: usize, sig: i32, ctx: usize, e: &mut Emit) {
     }
     let empty: [i32; 0] = [];
     let mut inst = Instances { a: SignalsInfo::<SignalOnly>::new(&empty).unwrap(), b: SignalsInfo::<WithRawSiginfo>::new(&empty).unwrap(), c: SignalsInfo::<WithOrigin>::new(&empty).unwrap() };
-    let before = dispositions();
+    crate::histex::counters::install();
+    let mut before = dispositions();
+    let fds_before = open_fds();
     let out = call(entry, sig, &mut inst);
-    let after = dispositions();
+    let mut after = dispositions();
+    if entry >= 16 {
+        // the accepted first signal of the list is taken over for good (the library never gives a
+        // signal back); what must be rolled back is the action, the slots and the pipe
+        before[(FIRST_IN_LIST - 1) as usize] = (0, 0);
+        after[(FIRST_IN_LIST - 1) as usize] = (0, 0);
+    }
     e.line(&format!("outcome={}", out.outcome));
+    if entry >= 16 && out.outcome != "ok" {
+        let w0 = crate::histex::counters::wakes();
+        unsafe {
+            libc::raise(FIRST_IN_LIST);
+        }
+        e.line(&format!("first_still_registered={}", crate::histex::counters::wakes() - w0));
+        e.line(&format!("fds_leaked={}", open_fds() as i64 - fds_before as i64));
+    }
     e.line(&format!("disp_changed={}", (before != after) as u8));
     e.line(&format!("strong={}", out.strong));
     if out.fd >= 0 {
@@ -208,6 +246,9 @@ fn os_verdicts(sigs: &[i32]) -> Vec<bool> {
 pub fn expected(entry: usize, sig: i32, os_ok: bool) -> &'static str {
     let checked = !(entry == 2 || entry == 3);
     let iterator = entry >= 10;
+    if entry >= 16 && sig == FIRST_IN_LIST {
+        return "ok"; // listed twice: watched once
+    }
     if iterator && (sig < 0 || sig >= 128) {
         return "panic";
     }
@@ -267,6 +308,10 @@ pub fn run(tier: Tier) -> BResult {
                 bad = Some("signal dispositions changed by a refused registration".into());
             } else if p.find("strong=").map_or(false, |x| x != "0" && x != "1") {
                 bad = Some(format!("captured flag reference not released after refusal (strong count {})", p.find("strong=").unwrap_or("")));
+            } else if p.find("first_still_registered=").map_or(false, |x| x != "0") {
+                bad = Some(format!("the action registered for the accepted signal listed before the refused one is still in the registry (a delivery of it makes {} wake attempts)", p.find("first_still_registered=").unwrap_or("")));
+            } else if p.find("fds_leaked=").map_or(false, |x| x != "0") {
+                bad = Some(format!("{} descriptors of the half-built instance stay open after the refusal", p.find("fds_leaked=").unwrap_or("")));
             } else if p.find("fd_open=") == Some("1") {
                 bad = Some("descriptor handed in is still open after refusal".into());
             } else if c == 1 && p.find("probe_hits=") != Some("1,1") {
@@ -289,7 +334,7 @@ pub fn run(tier: Tier) -> BResult {
         violations,
         exhaustive: true,
         caps: vec![],
-        rule: "complete grid entry point (16) x signal number ([-2,130] + i32::MIN/MAX) x context {fresh, after two other registrations, after an unchecked registration+removal of the same number}; expected class per cell from a rule (forbidden+checked => catchable panic; OS verdict obtained by an independent sibling calling sigaction => Err; iterator front-ends panic for negative / >= 128; register_conditional_default Err for numbers without a name; else Ok); distinct = distinct (entry, outcome class, child fate, expected) tuples".into(),
+        rule: "complete grid entry point (19: the three iterator constructors also with an accepted signal listed before the number under test - its action, slots and pipe must be gone after the refusal) x signal number ([-2,130] + i32::MIN/MAX) x context {fresh, after two other registrations, after an unchecked registration+removal of the same number}; expected class per cell from a rule (forbidden+checked => catchable panic; OS verdict obtained by an independent sibling calling sigaction => Err; iterator front-ends panic for negative / >= 128; register_conditional_default Err for numbers without a name; else Ok); distinct = distinct (entry, outcome class, child fate, expected) tuples".into(),
         assumptions: vec!["kernel/libc verdict on a signal number is taken from an independent sigaction call in a sibling process".into(), "x86-64 Linux".into()],
     }
 }
